@@ -57,6 +57,10 @@ def parseMsgs (s : String) : Option (List SyncMsg) :=
 def msgBuf (l : List SyncMsg) : MsgBuf :=
   l.foldl (fun b m => match b.set m.validator m with | .ok b' => b' | _ => b) .make
 
+/-- what the `select` line denotes for the specification: the last message per validator -/
+def lastPerValidator (l : List SyncMsg) : List SyncMsg :=
+  l.foldl (fun acc m => acc.filter (fun x => x.validator ≠ m.validator) ++ [m]) []
+
 def parseCmd (line : String) : Cmd :=
   match tokens line with
   | ["att", a, b, c, d, e, f, g] =>
@@ -88,7 +92,7 @@ def parseCmd (line : String) : Cmd :=
     match parseNat a, parseList b, parseMsgs c with
     | some root, some members, some msgs =>
       .pure (renderRes natList (select Cfg.fixed (msgBuf msgs) (root % 65536) members))
-            ("ok " ++ natList (Spec.select msgs (root % 65536) members))
+            ("ok " ++ natList (Spec.select (lastPerValidator msgs) (root % 65536) members))
     | _, _, _ => .bad
   | ["covers", a, b] =>
     match parseBits a, parseBits b with
